@@ -187,7 +187,22 @@ def cell_opts(deck, c, tk, src=None):
         f = get('fill')
         star = '*' if get('fillstar') else ''
         if isinstance(f, LatFill):
-            s = '%sfill=%s %s' % (star, ' '.join('%d:%d' % r for r in f.ranges), ' '.join(str(u) for u in f.universes))
+            us = [str(u) for u in f.universes]
+            if getattr(deck, 'fill_shorthand', False):
+                # repeat shorthand: 3 3 3 3 -> 3 3r (MCNP: nR repeats the preceding entry n times)
+                enc, i_ = [], 0
+                while i_ < len(us):
+                    j_ = i_
+                    while j_ + 1 < len(us) and us[j_ + 1] == us[i_]:
+                        j_ += 1
+                    enc.append(us[i_])
+                    if j_ - i_ >= 2:
+                        enc.append('%dr' % (j_ - i_))
+                    elif j_ - i_ == 1:
+                        enc.append(us[i_])
+                    i_ = j_ + 1
+                us = enc
+            s = '%sfill=%s %s' % (star, ' '.join('%d:%d' % r for r in f.ranges), ' '.join(us))
         else:
             s = '%sfill=%d' % (star, f)
         ft = get('filltr') if has('filltr') else None
@@ -202,6 +217,10 @@ def cell_opts(deck, c, tk, src=None):
         o.append('imp:n=%s' % tk.tok(get('imp')))
         if not isinstance(src, dict) and c.extra_imp is not None:
             o.append('imp:p=%s' % tk.tok(c.extra_imp))
+    if getattr(deck, 'opts_order', None) and len(o) > 1:
+        # the options of a cell card may come in any order
+        import random as _random
+        _random.Random(deck.opts_order * 1000 + c.id).shuffle(o)
     return o
 
 
@@ -685,6 +704,7 @@ def to_json(deck, env):
         'imp_ref': {k: [_num_json(v, env) for v in vals] for k, vals in getattr(deck, 'imp_ref', {}).items()},
         'lattice_opt': deck.lattice_opt,
         'dot_spelling': bool(getattr(deck, 'dot_spelling', False)),
+        'fill_shorthand': bool(getattr(deck, 'fill_shorthand', False)), 'opts_order': getattr(deck, 'opts_order', None),
         'c10': [{'mat': i['mat'], 'entries': [[z, _num_json(f, env), sn] for z, f, sn in i['entries']], 'mixed': i['mixed'],
                  'kwpos': i['kwpos'], 'rho': _num_json(i['rho'], env), 'rho_neg': i['rho_neg'],
                  'uses': [[_num_json(r, env), ng, cid] for r, ng, cid in i.get('uses', [])]} for i in getattr(deck, 'c10', [])],
@@ -742,6 +762,8 @@ def from_json(j):
     d.mats = {int(k): [tuple(x) for x in v] for k, v in j.get('mats', {}).items()}
     d.lattice_opt = j.get('lattice_opt', [])
     d.dot_spelling = bool(j.get('dot_spelling', False))
+    d.fill_shorthand = bool(j.get('fill_shorthand', False))
+    d.opts_order = j.get('opts_order')
     if j.get('c10'):
         d.c10 = [{'mat': i['mat'], 'entries': [(z, _fr(f), sn) for z, f, sn in i['entries']], 'mixed': i['mixed'], 'kwpos': i['kwpos'],
                   'rho': _fr(i['rho']), 'rho_neg': i['rho_neg'],
